@@ -181,9 +181,19 @@ impl<'tcx> Cx<'tcx> {
     fn body(&self, did: DefId, out: &mut String) {
         let tcx = self.tcx;
         let body = tcx.optimized_mir(did);
+        self.body_of(did, body, tcx.def_path_str(did), out);
+        // promoted constants of this body (e.g. `0.0..=1.0`, `&0.0`): emitted as parameterless bodies
+        for (i, pb) in tcx.promoted_mir(did).iter_enumerated() {
+            out.push(',');
+            self.body_of(did, pb, format!("{}::promoted[{}]", tcx.def_path_str(did), i.as_u32()), out);
+        }
+    }
+
+    fn body_of(&self, did: DefId, body: &Body<'tcx>, path: String, out: &mut String) {
+        let tcx = self.tcx;
         let kind = tcx.def_kind(did);
         let vis = match kind { DefKind::Fn | DefKind::AssocFn => format!("{:?}", tcx.visibility(did)), _ => "n/a".into() };
-        let _ = write!(out, "{{\"path\":{},\"kind\":{},\"vis\":{},\"span\":{},\"argc\":{},", esc(&tcx.def_path_str(did)), esc(&format!("{:?}", kind)), esc(&vis), self.span(tcx.def_span(did)), body.arg_count);
+        let _ = write!(out, "{{\"path\":{},\"kind\":{},\"vis\":{},\"span\":{},\"argc\":{},", esc(&path), esc(&format!("{:?}", kind)), esc(&vis), self.span(tcx.def_span(did)), body.arg_count);
         // impl info
         if let Some(assoc) = tcx.opt_associated_item(did) {
             if let Some(imp) = assoc.impl_container(tcx) {
